@@ -443,11 +443,7 @@ nextStateFile:
 	if err != nil {
 		return nil, err
 	}
-	if len(mgr.builder.KnownPcaps()) != len(cachedKnownPcapData) {
-		if err := mgr.saveState(); err != nil {
-			return nil, fmt.Errorf("unable to save state: %w", err)
-		}
-	}
+	saveKnownPcaps := len(mgr.builder.KnownPcaps()) != len(cachedKnownPcapData)
 	mgr.pcapOverIPPackets = make(chan pcapOverIPPacket, 100)
 	mgr.pcapOverIPCmd = make(chan pcapOverIPCmd, 1)
 
@@ -464,6 +460,12 @@ nextStateFile:
 		mgr.startMergeJobIfNeeded()
 		for a := range pcapOverIPEndpoints {
 			mgr.pcapOverIPEndpoints = append(mgr.pcapOverIPEndpoints, mgr.newPcapOverIPEndpoint(ctx, a))
+		}
+		// only now is everything restored that saveState writes (the endpoints above were missing before)
+		if saveKnownPcaps {
+			if err := mgr.saveState(); err != nil {
+				log.Printf("unable to save state: %v", err)
+			}
 		}
 	}
 	return &mgr, nil
